@@ -385,7 +385,7 @@ def dependants(world, cname, attr):
 
 
 def exhaustive_decl():
-    return cg.ModuleDecl(classes=[cg.ClassDecl(name="M", attrs=[cg.AttrDecl(tk="li"), cg.AttrDecl(tk="si"), cg.AttrDecl(tk="ss"), cg.AttrDecl(tk="dsi")], bootstrap=True)])
+    return cg.ModuleDecl(classes=[cg.ClassDecl(name="M", attrs=[cg.AttrDecl(tk="li"), cg.AttrDecl(tk="ls"), cg.AttrDecl(tk="si"), cg.AttrDecl(tk="ss"), cg.AttrDecl(tk="dsi")], bootstrap=True)])
 
 
 def list_ops(n):
@@ -426,6 +426,23 @@ def run_exhaustive(ctx, params):
                     op = {"kind": "helper", "target": 0, "hkind": hk, "attr": "nums", "name": {"with_item": "with_num", "update_item": "update_num", "transform_item": "transform_num", "without_item": "without_num"}[hk],
                           "args": args, "kwargs": dict(kw, **({"_inplace": True} if inplace else {})), "inplace": inplace, "form": "exh", "validity": "valid"}
                     judge(ctx, world, [inst], 0, op, [{"kind": "construct", "cls": "M", "kwargs": {"nums": cg.R_lit(content)}}], ["exh", "list", content, hk, a, kw, inplace], exhaustive=True)
+        # List[str]: arguments of the element type (by value by default) and ints (by index by default), every _by_index setting
+        states = [list(c) for n in range(0, 4) for c in itertools.product(["", "a", "b"], repeat=n)]
+        for content in states:
+            n = len(content)
+            for a in list(range(-n - 1, n + 2)) + ["", "a", "zz"]:
+                for by in (None, True, False):
+                    kw = {} if by is None else {"_by_index": by}
+                    for hk, extra in (("without_item", []), ("transform_item", ["addz"]), ("update_item", ["q"]), ("update_item", [""])):
+                        k += 1
+                        if k % parts != part:
+                            continue
+                        for inplace in (False, True):
+                            inst = M(names=list(content))
+                            args = [cg.R_lit(a)] + ([["fn", extra[0]]] if hk == "transform_item" else [cg.R_lit(x) for x in extra])
+                            op = {"kind": "helper", "target": 0, "hkind": hk, "attr": "names", "name": f"{hk.split('_')[0]}_name", "args": args,
+                                  "kwargs": dict(kw, **({"_inplace": True} if inplace else {})), "inplace": inplace, "form": "exh", "validity": "valid"}
+                            judge(ctx, world, [inst], 0, op, [{"kind": "construct", "cls": "M", "kwargs": {"names": cg.R_lit(content)}}], ["exh", "liststr", content, hk, a, kw, inplace], exhaustive=True)
         # sets and dicts
         for attr, sing, universe in (("marks", "mark", [0, 1, 2]), ("flags", "flag", ["", "a", "b"])):
             for r in range(0, 4):
